@@ -231,7 +231,7 @@ def build_units(units, jobs=None):
 def load_known():
     p = os.path.join(VERIF, 'known_findings.json')
     if not os.path.exists(p): return []
-    return json.load(open(p))['findings']
+    return [k for k in json.load(open(p))['findings'] if k.get('kind') == 'known']
 
 # ------------------------------------------------------------------ evidence
 def write_evidence(pid, tier, seed, coverage, assumptions, wall_s, violations):
